@@ -667,6 +667,37 @@ def decode_sparams(t):
 # ---- calls --------------------------------------------------------------------
 
 CALL_ARGS = ["", "1", "1, 2", "1, 2, 3", "a=1", "1, b=2", "__p=1", "a=1, b=2", "*(1, 2)", "**{'a': 1}", "1, 'x'", "d=1", "1, e=None"]
+# the same calls as Binder.Bind.rawarg lists
+CALL_RAW = {
+    "": [], "1": ["RPos"], "1, 2": ["RPos", "RPos"], "1, 2, 3": ["RPos", "RPos", "RPos"], "a=1": [("RKw", "a")], "1, b=2": ["RPos", ("RKw", "b")],
+    "__p=1": [("RKw", "__p")], "a=1, b=2": [("RKw", "a"), ("RKw", "b")], "*(1, 2)": [("RStarLit", 2)], "**{'a': 1}": [("RKwLit", ["a"])],
+    "1, 'x'": ["RPos", "RPos"], "d=1": [("RKw", "d")], "1, e=None": ["RPos", ("RKw", "e")],
+}
+
+
+def raw_term(a):
+    out = []
+    for r in CALL_RAW[a]:
+        if r == "RPos":
+            out.append("Bind.RPos")
+        elif r[0] == "RKw":
+            out.append(f"(Bind.RKw {lib.cn(NAMES_CODE(r[1]))})")
+        elif r[0] == "RStarLit":
+            out.append(f"(Bind.RStarLit {r[1]}%nat)")
+        elif r[0] == "RKwLit":
+            out.append("(Bind.RKwLit " + lib.clist([lib.cn(NAMES_CODE(n)) for n in r[1]]) + ")")
+    return lib.clist(out)
+
+
+def model_calls(headers, calls):
+    """-> [(binds in the defining scope, binds from an importer)]"""
+    terms = []
+    for h, a in calls:
+        lst = lib.clist([sparam_term(p) for p in h[0] if p is not None])
+        b = lambda f: f"(match {f} {lst} {raw_term(a)} with Some _ => true | None => false end)"
+        terms.append(f"({b('call_in_defining_scope')}, {b('call_from_importer')})")
+    hdr = HEADER.replace("PV.Annot.DefSig.", "PV.Annot.DefSig PV.Annot.Calls.\nRequire PV.Binder.Bind.")
+    return lib.coq_eval(hdr, terms, name="c13c", jobs=6)
 
 
 def impl_calls(headers_src, rng, d: Path, tag):
@@ -927,9 +958,26 @@ def run(tier: str, replay: str | None = None):
         try:
             sel = list(range(len(headers)))[: (60 if quick else 400)]
             calls, res = impl_calls([hsrc[i] for i in sel], rng, d, f"{lib.seed()}_{tier}")
+            mcalls = None
+            if model_ok:
+                try:
+                    mcalls = model_calls(headers, [(headers[sel[j]], a) for j, a in calls])
+                except RuntimeError as ex:
+                    rep.violation({"kind": "broken-correspondence", "correspondence": "Annot.Calls evaluation failed", "detail": str(ex)[-1500:]}, no_failing_input=True)
             for ci, (j, a) in enumerate(calls):
                 n_calls += 1
                 h = headers[sel[j]]
+                if mcalls is not None:
+                    m_def, m_rt = mcalls[ci]
+                    i_def = "incompatible_call" not in res["nested"][ci]
+                    i_rt = "incompatible_call" not in res["imported"][ci]
+                    if (bool(m_def), bool(m_rt)) == (i_def, i_rt):
+                        validated += 1
+                        bump("call_verdict", f"model:def={'binds' if m_def else 'rejected'},importer={'binds' if m_rt else 'rejected'}")
+                    else:
+                        corr.append(({"header": jsonable(h), "source": f"def m({hsrc[sel[j]][0]}){hsrc[sel[j]][1]}; m({a})"},
+                                     {"nested_def": res["nested"][ci], "imported": res["imported"][ci]}, {"def_binds": bool(m_def), "importer_binds": bool(m_rt)},
+                                     "Calls.call_in_defining_scope/call_from_importer vs incompatible_call on the call"))
                 trio = (res["inmod"][ci], res["imported"][ci], res["nested"][ci])
                 src = f"def m({hsrc[sel[j]][0]}){hsrc[sel[j]][1]}; m({a})"
                 if trio[0] == trio[1] == trio[2]:
